@@ -285,8 +285,97 @@ func (e *Engine) addSyncAtomic() {
 		c.s.env.syncMaps[p] = append(append([]MapEntry(nil), es...), MapEntry{K: c.args[1], V: c.args[2]})
 		return nil
 	}
-	vis("(*sync.Map).Load")
-	vis("(*sync.Map).Store")
+	smFind := func(c *callCtx, p Ptr, k Value) int {
+		for i, e := range c.s.env.syncMaps[p] {
+			if c.s.eqValue(e.K, k) == true {
+				return i
+			}
+		}
+		return -1
+	}
+	in["(*sync.Map).LoadOrStore"] = func(c *callCtx) Value {
+		p := ptrArg(c, 0)
+		if i := smFind(c, p, c.args[1]); i >= 0 {
+			return Tuple{c.s.env.syncMaps[p][i].V, true}
+		}
+		c.s.env.syncMaps[p] = append(append([]MapEntry(nil), c.s.env.syncMaps[p]...), MapEntry{K: c.args[1], V: c.args[2]})
+		return Tuple{c.args[2], false}
+	}
+	smDelete := func(c *callCtx) (Value, bool) {
+		p := ptrArg(c, 0)
+		i := smFind(c, p, c.args[1])
+		if i < 0 {
+			return Iface{}, false
+		}
+		es := c.s.env.syncMaps[p]
+		v := es[i].V
+		c.s.env.syncMaps[p] = append(append([]MapEntry(nil), es[:i]...), es[i+1:]...)
+		return v, true
+	}
+	in["(*sync.Map).LoadAndDelete"] = func(c *callCtx) Value {
+		v, ok := smDelete(c)
+		return Tuple{v, ok}
+	}
+	in["(*sync.Map).Delete"] = func(c *callCtx) Value { smDelete(c); return nil }
+	in["(*sync.Map).Swap"] = func(c *callCtx) Value {
+		p := ptrArg(c, 0)
+		es := c.s.env.syncMaps[p]
+		if i := smFind(c, p, c.args[1]); i >= 0 {
+			ne := append([]MapEntry(nil), es...)
+			old := ne[i].V
+			ne[i].V = c.args[2]
+			c.s.env.syncMaps[p] = ne
+			return Tuple{old, true}
+		}
+		c.s.env.syncMaps[p] = append(append([]MapEntry(nil), es...), MapEntry{K: c.args[1], V: c.args[2]})
+		return Tuple{Iface{}, false}
+	}
+	in["(*sync.Map).CompareAndSwap"] = func(c *callCtx) Value {
+		p := ptrArg(c, 0)
+		es := c.s.env.syncMaps[p]
+		if i := smFind(c, p, c.args[1]); i >= 0 && c.s.eqValue(es[i].V, c.args[2]) == true {
+			ne := append([]MapEntry(nil), es...)
+			ne[i].V = c.args[3]
+			c.s.env.syncMaps[p] = ne
+			return true
+		}
+		return false
+	}
+	in["(*sync.Map).Clear"] = func(c *callCtx) Value {
+		delete(c.s.env.syncMaps, ptrArg(c, 0))
+		return nil
+	}
+	in["(*sync.Map).Range"] = func(c *callCtx) Value {
+		p := ptrArg(c, 0)
+		snapshot := append([]MapEntry(nil), c.s.env.syncMaps[p]...)
+		f := c.args[1].(*Closure)
+		var step func(i int)
+		dest, site, t := c.dest, c.site, c.t
+		step = func(i int) {
+			if i >= len(snapshot) {
+				return
+			}
+			nf := c.s.newFrame(f.Fn, []Value{snapshot[i].K, snapshot[i].V}, f.Env, -1)
+			nf.callSite = site
+			nf.post = func(s *State, rv Value) Value {
+				if b, ok := rv.(bool); ok && b {
+					step(i + 1)
+				}
+				return rv
+			}
+			t.frames = append(t.frames, nf)
+		}
+		_ = dest
+		if len(snapshot) > 0 {
+			step(0)
+			c.tail = true
+			c.dest = -1
+		}
+		return nil
+	}
+	for _, n := range []string{"Load", "Store", "LoadOrStore", "LoadAndDelete", "Delete", "Swap", "CompareAndSwap", "Clear", "Range"} {
+		vis("(*sync.Map)." + n)
+	}
 	// sync.WaitGroup: counter in slot 0 (modelled on our own layout: first slot)
 	in["(*sync.WaitGroup).Add"] = func(c *callCtx) Value {
 		p := ptrArg(c, 0)
